@@ -1302,6 +1302,22 @@ def fam_mtype(tier):
                 sc.line(nmea.line(payload=bytes([c]), fill=fill), 0, dec)
                 sc.line(nmea.line(payload=bytes([c]) + rest[:1], fill=fill, chan=b"B"), 0, dec)
                 sc.line(nmea.line(n=2, k=1, sid=fill, payload=bytes([c]), fill=fill), 0, dec)
+    # every address: the type does not depend on talker or formatter
+    sc.unit()
+    sc.new(0)
+    for addr in (b"AIVDO", b"BSVDM", b"ABVDM", b"SAVDO", b"AIVDX", b"AIVSD", b"BSVSD", b"GPGGA", b"aivdm", b"\xff\xfeVDM", b"AI\x00\x00\x00", b"XXXXX"):
+        for c in list(nmea.ARMOR):
+            for dec in (0, 1):
+                sc.line(nmea.line(addr=addr, payload=bytes([c]) + rand_armor(rnd, 15)), 0, dec)
+            sc.line(nmea.line(addr=addr, n=2, k=1, sid=1, payload=bytes([c]) + rand_armor(rnd, 5)), 0, 0)
+    # payloads that do not decode (too short, unsupported type), decoding requested
+    sc.unit()
+    sc.new(0)
+    for c in list(nmea.ARMOR):
+        for ln_ in (1, 2, 7):
+            sc.line(nmea.line(payload=bytes([c]) + rand_armor(rnd, ln_ - 1)), 0, 1)
+            sc.line(nmea.line(n=2, k=1, sid=6, payload=b"0"), 0, 1)
+            sc.line(nmea.line(n=2, k=2, sid=6, payload=bytes([c]) + rand_armor(rnd, ln_ - 1)), 0, 1)
     # history: the sentence's own first character decides, whatever group is open or was delivered before
     for c in list(nmea.ARMOR):
         sc.unit()
